@@ -421,6 +421,25 @@ def _mutator(name, npaths):
     return wrapper
 
 
+_real_stat = {"stat": os.stat, "lstat": os.lstat}
+
+
+def _stat_wrapper(name):
+    real = _real_stat[name]
+
+    def wrapper(path, *a, **kw):
+        if not isinstance(path, int) and kw.get("dir_fd") is None and not SIM.quiet:
+            p = _abspath(path)
+            if p is not None and under_root(p):
+                # an existence / metadata probe: recorded, and a point where the scheduler may
+                # switch (check-then-act windows such as is_file() ... read_text())
+                SIM.event("stat", rel(p))
+        return real(path, *a, **kw)
+
+    wrapper.__name__ = name
+    return wrapper
+
+
 def sim_fsync(fd):
     if fd in _FD_PATHS:
         SIM.event("fsync", rel(_FD_PATHS[fd]))
@@ -438,6 +457,8 @@ def install():
                     ("rmdir", 1), ("truncate", 1), ("link", 2), ("symlink", 2)):
         setattr(os, name, _mutator(name, n))
     os.fsync = sim_fsync
+    os.stat = _stat_wrapper("stat")
+    os.lstat = _stat_wrapper("lstat")
     os.write = sim_os_write
     os.read = sim_os_read
     os.close = sim_os_close
